@@ -213,11 +213,8 @@ Fixpoint pad_loop (fuel : nat) (len mincol colinc : nat) (padchar pad : text) : 
 Definition dir_as (esc colon at_ : bool) (ps : list param) (c : ctl) : pres :=
   match take_arg c with
   | Ok (v, c) =>
-      (* site: with : nil is written (); the Go code only recognises its own nil, not an empty list object *)
-      let ti := match v with VNil => if colon then tx "()" else print esc VNil | v => print esc v end in
-      let ts := if is_empty v && colon then tx "()" else print esc v in
-      let out := pick ti ts in
-      let c := add_taint c (negb (text_eqb ti ts)) in
+      (* with : nil is written (); an empty list object is nil *)
+      let out := if is_empty v && colon then tx "()" else print esc v in
       match get_int 0 ps 0 true, get_int 1 ps 1 true, get_int 2 ps 0 true, get_chr 3 ps [sp] with
       | GOk mincol, GOk colinc, GOk minpad, Some padchar =>
           if (colinc <? 1)%Z then err c else          (* colinc directive parameter must be positive *)
@@ -408,9 +405,7 @@ Definition dir_cond (rec : ctl -> pres) (colon at_ : bool) (ps : list param) (c 
         else if colon then
           if negb (Nat.eqb (List.length strs) 2) || Nat.ltb 0 (List.length def) then err c
           else match arg with
-               | Some VNil => with_pos next (sub_process rec c (tnth strs 0))
-               | Some (VList []) => (* site: an empty list object is not the Go nil, so the Go code takes it for true *)
-                                    with_pos next (sub_process rec (add_taint c true) (tnth strs (pick 1%nat 0%nat)))
+               | Some VNil | Some (VList []) => with_pos next (sub_process rec c (tnth strs 0))   (* an empty list object is nil *)
                | Some _ => with_pos next (sub_process rec c (tnth strs 1))
                | None => (* site: no argument left: the Go code goes on with nil *)
                          if b then with_pos next (sub_process rec (add_taint c true) (tnth strs 0)) else terr c
@@ -418,9 +413,7 @@ Definition dir_cond (rec : ctl -> pres) (colon at_ : bool) (ps : list param) (c 
         else if at_ then
           if negb (Nat.eqb (List.length strs) 1) || Nat.ltb 0 (List.length def) then err c
           else match arg with
-               | Some VNil => Ok (set_pos c next, false)
-               | Some (VList []) => if b then with_pos next (sub_process rec (add_taint (set_apos c (c_apos c - 1)) true) (tnth strs 0))
-                                    else Ok (set_pos (add_taint c true) next, false)
+               | Some VNil | Some (VList []) => Ok (set_pos c next, false)
                | Some _ => with_pos next (sub_process rec (set_apos c (c_apos c - 1)) (tnth strs 0))
                | None => if b then Ok (set_pos (add_taint c true) next, false) else terr c
                end
@@ -460,8 +453,7 @@ Definition dir_proc (rec : ctl -> pres) (at_ : bool) (c : ctl) : pres :=
       else
         match (match arg_at c with
                | Some (VList l) => Ok (l, c)
-               | Some VNil => (* site: the Go type assertion to slip.List fails for nil; () is a list *)
-                              if b then terr c else Ok ([], add_taint c true)
+               | Some VNil => Ok ([], c)                                  (* nil is the empty list *)
                | Some _ => err c
                | None => if b then Ok ([], add_taint c true) else terr c
                end) with
